@@ -377,7 +377,10 @@ func (c *channel) reconnect(maxRetries float64) {
 		c.streamMut.Unlock()
 		c.setLastErr(err)
 		if retries >= maxRetries && maxRetries > 0 {
-			c.streamBroken.set()
+			// The stream is still marked as broken (we only get here if it was, and it
+			// can only be cleared under the lock we held). Marking it again here, after
+			// the lock was released, could overwrite the state of a stream that the
+			// other goroutine has re-established in the meantime.
 			return
 		}
 		delay := float64(backoffCfg.BaseDelay)
